@@ -38,6 +38,7 @@ var (
 	tItemPtr   = reflect.TypeOf((*zset.Item)(nil))
 	tError     = reflect.TypeOf((*error)(nil)).Elem()
 	tValueType = reflect.TypeOf(ds.ValueType(0))
+	tGeoMember = reflect.TypeOf((*nodis.GeoMember)(nil))
 )
 
 // results that come out of Go maps or random selection in an order the model cannot predict
@@ -68,6 +69,21 @@ func splitGroups(toks []string) [][]string {
 
 func scalar(t reflect.Type, tok string) reflect.Value {
 	switch {
+	case t == tGeoMember: // <member>:<longitude bits>:<latitude bits>
+		parts := strings.Split(tok, ":")
+		if len(parts) != 3 {
+			panic("bad geo member " + tok)
+		}
+		b, err := parseArg(parts[0])
+		if err != nil {
+			panic(err)
+		}
+		lo, err1 := strconv.ParseUint(parts[1], 16, 64)
+		la, err2 := strconv.ParseUint(parts[2], 16, 64)
+		if err1 != nil || err2 != nil {
+			panic("bad geo member " + tok)
+		}
+		return reflect.ValueOf(&nodis.GeoMember{Member: string(b), Longitude: math.Float64frombits(lo), Latitude: math.Float64frombits(la)})
 	case t == tDuration:
 		ms, _ := strconv.ParseInt(tok, 10, 64)
 		return reflect.ValueOf(time.Duration(ms) * time.Millisecond)
@@ -323,10 +339,9 @@ func (st *state) openInstance(id, backend, dir string, fresh bool) string {
 	return "ok"
 }
 
-func (st *state) dump(liveOnly bool) string {
+func (st *state) dump(liveOnly bool, now int64) string {
 	in := st.cur()
 	var parts []string
-	now := time.Now().UnixMilli()
 	for _, e := range in.n.VerifIndex() {
 		if liveOnly && e.Exp != 0 && e.Exp <= now {
 			continue
@@ -334,6 +349,13 @@ func (st *state) dump(liveOnly bool) string {
 		val := "unreadable"
 		if e.Value != nil {
 			val = dumpVal(e.Value)
+		}
+		if e.Exp != 0 && e.Exp <= now {
+			// a record whose deadline has passed and that has not been collected yet: that it is still indexed (and
+			// under which deadline) is compared; whether its value happens to be in memory, in the backend or nowhere
+			// is not - no command can tell (and a multi-key read that panics half-way loads fewer values than the
+			// model's, which reads all operands before it looks at their types)
+			val = "dead"
 		}
 		parts = append(parts, fmt.Sprintf("%s@%d{%s}", showBytes([]byte(e.Name)), e.Exp, val))
 	}
@@ -390,9 +412,11 @@ func (st *state) apiOp(toks []string) (out string, annot string) {
 		time.Sleep(time.Duration(ms) * time.Millisecond)
 		return "ok", ""
 	case "dump":
-		return st.dump(false), fmt.Sprintf(" now=%d", time.Now().UnixMilli())
+		now := time.Now().UnixMilli()
+		return st.dump(false, now), fmt.Sprintf(" now=%d", now)
 	case "ldump": // logical keyspace: records whose deadline has not passed
-		return st.dump(true), fmt.Sprintf(" now=%d", time.Now().UnixMilli())
+		now := time.Now().UnixMilli()
+		return st.dump(true, now), fmt.Sprintf(" now=%d", now)
 	case "api":
 		now := time.Now().UnixMilli()
 		o, raw := callAPI(st.cur().n, toks[1], toks[2:])
